@@ -105,7 +105,9 @@ def style_scenarios(cg, f):
     per = {}
     for st in sorted(STYLES):
         r, _ = reach_for(st)
-        per[st] = [norm(g.nodes[i].ast, limit=400) for i in sorted(r - unknown) if g.nodes[i].ast is not None and g.nodes[i].kind in ('stmt', 'test')]
+        # single-assignment locals read like what they stand for (`param_id = param.id ... ':%d' % param_id`)
+        from ..q import resolve_names
+        per[st] = [norm(resolve_names(f.node, g.nodes[i].ast), limit=400) for i in sorted(r - unknown) if g.nodes[i].ast is not None and g.nodes[i].kind in ('stmt', 'test')]
     throws = [x for x in g.nodes if x.kind == 'stmt' and x.ast is not None and any(dotted(c.func) == 'throw' and c.args and dotted(c.args[0]) == 'NotImplementedError' for c in x.calls())]
     ok_unknown = bool(style_tests) and bool(throws) and any(t.id in unknown for t in throws) and \
         all(g.must_pass_after(t, throws, exits=[g.exit], edge_ok=eo_unknown) for t in sorted([t for t in style_tests if t.id in unknown], key=lambda t: t.lineno)[-1:])
@@ -332,37 +334,56 @@ def ident_rule(ctx):
     # every return of quote_name is assembled only from the quote character and from *doubled* text: a local is "doubled" when it was bound to
     # <name-or-doubled>.replace(quote_char, quote_char + quote_char); a qualified name is handled by recursive quote_name calls on its items
     g = cg.cfg(qn); pname = qn.params[1]
+    from ..q import resolve_names, reaching_defs, value_of_def
+    qc_names = {'quote_char'} | {t.id for st in walk_no_nested(qn.node) if isinstance(st, ast.Assign) and isinstance(st.value, ast.Attribute) and st.value.attr == 'quote_char'
+                                 for t in st.targets if isinstance(t, ast.Name)}
+    def is_qc(e): return isinstance(e, ast.Name) and e.id in qc_names or isinstance(e, ast.Attribute) and e.attr == 'quote_char'
+    def is_twice(e):
+        e = resolve_names(qn.node, e)
+        return isinstance(e, ast.BinOp) and (isinstance(e.op, ast.Add) and is_qc(e.left) and is_qc(e.right) or isinstance(e.op, ast.Mult) and (
+            is_qc(e.left) and isinstance(e.right, ast.Constant) and e.right.value == 2 or is_qc(e.right) and isinstance(e.left, ast.Constant) and e.left.value == 2))
     def is_doubling(v):
-        return isinstance(v, ast.Call) and isinstance(v.func, ast.Attribute) and v.func.attr == 'replace' and len(v.args) == 2 and norm(v.args[0]) == 'quote_char' \
-            and norm(v.args[1]).replace(' ', '') in ('quote_char+quote_char', 'quote_char*2', '2*quote_char')
-    dbl_nodes = [x for x in g.nodes if x.kind == 'stmt' and isinstance(x.ast, ast.Assign) and len(x.ast.targets) == 1 and isinstance(x.ast.targets[0], ast.Name) and is_doubling(x.ast.value)
-                 and isinstance(x.ast.value.func.value, ast.Name)]
-    ok = bool(dbl_nodes)
+        return isinstance(v, ast.Call) and isinstance(v.func, ast.Attribute) and v.func.attr == 'replace' and len(v.args) == 2 and is_qc(v.args[0]) and is_twice(v.args[1])
+    ok = any(is_doubling(c) for c in ast.walk(qn.node))
     ctx.ob('C06-IDENT.quote_name-doubles-the-quote-character', qn, qn.node, ok, '' if ok else 'quote_name no longer doubles the quote character inside identifiers')
     rets = [x for x in g.nodes if x.kind == 'stmt' and isinstance(x.ast, ast.Return) and x.ast.value is not None]
     ctx.floor('C06-IDENT', len(rets), 2, 'returns of quote_name')
     for r in rets:
-        names = [a for a in ast.walk(r.ast.value) if isinstance(a, ast.Name) and isinstance(a.ctx, ast.Load)]
-        recursive = [c for c in ast.walk(r.ast.value) if isinstance(c, ast.Call) and isinstance(c.func, ast.Attribute) and c.func.attr == 'quote_name']
-        okr = True; why = ''
-        comp_vars = {gn.target.id for ge in ast.walk(r.ast.value) if isinstance(ge, (ast.GeneratorExp, ast.ListComp)) for gn in ge.generators if isinstance(gn.target, ast.Name)}
-        for a in names:
-            if a.id in ('quote_char', qn.recv) or a.id in comp_vars: continue
-            if recursive and a.id == pname and any(isinstance(gn, ast.comprehension) and gn.iter is a for ge in ast.walk(r.ast.value) if isinstance(ge, (ast.GeneratorExp, ast.ListComp)) for gn in ge.generators):
-                continue                                  # the qualified name itself, only as the iterable whose items are quoted recursively
-            # the variable must hold doubled text on every path to this return: every definition reaching the return is a doubling assignment
-            defs = [x for x in g.nodes if x.kind == 'stmt' and isinstance(x.ast, ast.Assign) and any(dotted(t) == a.id for t in x.ast.targets)]
-            good = [x for x in defs if x in dbl_nodes]
-            if a.id == pname and not defs: okr = False; why = 'the raw name'; break
-            if not good or not g.dominated(r, good): okr = False; why = '`%s`, which is not doubled on every path' % a.id; break
-            bad_after = [x for x in defs if x not in good and any(x.id in g.reach([gd_], include_src=False) for gd_ in good) and r.id in g.reach([x])]
-            if bad_after: okr = False; why = '`%s`, re-bound to undoubled text after the doubling' % a.id; break
-        if recursive and okr:
-            okr = all(c.args and isinstance(c.args[0], ast.Name) and c.args[0].id in comp_vars for c in recursive)
-            if not okr: why = 'a recursive call that does not quote the items of the qualified name'
+        why = ['']
+        def safe(e, at, depth=0):
+            """the text `e` is the quote character, doubled text, or built from those; `at` = CFG node where it is evaluated"""
+            if isinstance(e, ast.Constant) and isinstance(e.value, str): return True
+            if is_qc(e): return True
+            if isinstance(e, ast.BinOp) and isinstance(e.op, ast.Add): return safe(e.left, at, depth) and safe(e.right, at, depth)
+            if isinstance(e, ast.BinOp) and isinstance(e.op, ast.Mod) and isinstance(e.left, ast.Constant):
+                return all(safe(x, at, depth) for x in (e.right.elts if isinstance(e.right, ast.Tuple) else [e.right]))
+            if is_doubling(e): return True                  # <anything>.replace(q, q+q): whatever the receiver held, the result has every quote character doubled
+            if isinstance(e, ast.Call) and isinstance(e.func, ast.Attribute) and e.func.attr == 'join' and len(e.args) == 1 and isinstance(e.args[0], (ast.GeneratorExp, ast.ListComp)):
+                ge = e.args[0]
+                cv = {gn.target.id for gn in ge.generators if isinstance(gn.target, ast.Name)}
+                it_ok = all(isinstance(gn.iter, ast.Name) and gn.iter.id == pname for gn in ge.generators)
+                el = ge.elt
+                rec = isinstance(el, ast.Call) and isinstance(el.func, ast.Attribute) and el.func.attr == 'quote_name' and len(el.args) == 1 and isinstance(el.args[0], ast.Name) and el.args[0].id in cv
+                if not (it_ok and rec): why[0] = 'a qualified name whose items are not quoted by a recursive call'
+                return it_ok and rec and safe(e.func.value, at, depth)
+            if isinstance(e, ast.Name) and depth < 4:
+                ds = reaching_defs(g, at, e.id, with_params=True)
+                if not ds or any(d is g.entry for d in ds):
+                    why[0] = 'the raw name' if e.id == pname else '`%s`, which is not doubled on every path' % e.id
+                    return False
+                for d in ds:
+                    v = value_of_def(d, e.id)
+                    if v is None or not safe(v, d, depth + 1):
+                        why[0] = why[0] or '`%s`, which is not doubled on every path' % e.id
+                        if e.id != pname or 'raw' not in why[0]: why[0] = '`%s`, which is not doubled on every path' % e.id
+                        return False
+                return True
+            why[0] = why[0] or '`%s`' % norm(e)[:40]
+            return False
+        okr = safe(r.ast.value, r)
         ctx.ob('C06-IDENT.quote_name-doubles-on-every-path', qn, r.ast, okr,
                '' if okr else 'this return of quote_name emits %s: a name (or a part of a qualified name) containing the quote character closes the identifier early and changes '
-               'the statement' % why, node=r.ast)
+               'the statement' % why[0], node=r.ast)
     n = 0
     for cls in repo.subclasses(repo.cls(SB, 'SQLBuilder')):
         for name, f in cls.methods.items():
